@@ -84,6 +84,13 @@ CHECKS = {
         technique="Lean 4 theorems about a hand-written executable model + bit-level differential correspondence on file dumps",
         ref="DESIGN.md §5 C08",
     ),
+    "C20": dict(
+        category="proof",
+        text="Heap model of Emulsion / EmulsionTimeCourse / DropletTrack: droplet objects are references, 'copy' allocates, collections and the caller hold references; 22 operations with the code's copy discipline (append/extend with copy and force_consistency, copy(min_radius), integer index = alias, slice/add = fresh copies, remove_small, clear, get_linked_data, in-place member mutation/merge, time-course append/slice/clear with the Emulsion(e)+copy() generations, track append with dimension check and default time). Theorems: a default insert stores a fresh object and mutation through the caller's object and through the stored one are mutually invisible (emInsert_copy, insert_copy_isolated, setVal_other); copies/slices consist of the next unused heap cells carrying the source values, disjoint from every source object (allocAll_fresh, fresh_disjoint); times and members have equal length after EVERY operation sequence (step_aligned, times_members_aligned); a layout mismatch under force_consistency is rejected leaving the state unchanged (consistency_rejects); default time rule (defaultTime_spec). The model is run against the real classes on exhaustive (length<=4) and random (length<=40/200) operation sequences; after every operation values, order, times, dtypes and the ALIAS CLASSES (object identity / shared memory vs equal references) are compared. Statistics (count, mean/std, total volume, area-weighted width, bbox, trajectories, durations, nearest-time lookup, remove_short_tracks) are checked against their definitions and under permutation on the implementation.",
+        note="Trusted: Lean kernel; propext/Classical.choice/Quot.sound; the correspondence harness (alias detection by `is`/np.shares_memory); remove_overlapping is C10's; the statistics clauses are checked numerically on the implementation (their exact-arithmetic permutation invariance is not a Lean theorem here).",
+        technique="Lean 4 invariants over a heap/state-machine model + differential correspondence on operation sequences incl. alias structure",
+        ref="DESIGN.md §5 C20",
+    ),
 }
 
 NOT_APPLICABLE = {}
